@@ -1067,6 +1067,51 @@ func encodeCmdRun(c *run.Ctx, r *kit.Rng, s *kit.Summary, n int) {
 		s.Skipped["encode-command: driver failed"]++
 		return
 	}
+	// the model of the command loop on a third of the conversions: same status, same number of bytes (the order
+	// of header map entries is free), and its output read back by the real decoder gives the same records
+	var mops []string
+	var midx []int
+	for i, j := range jobs {
+		data, _ := os.ReadFile(j.in)
+		if i%3 != 0 || len(data) > 30000 {
+			continue
+		}
+		z := "u"
+		if first, _ := decodeAll(codecs[j.from], data); len(first) > 0 {
+			z = zoneTok(&first[0])
+		}
+		midx = append(midx, i)
+		mops = append(mops, "c07.encodecmd "+j.from+" "+j.to+" "+z+" "+kit.Hex(data))
+	}
+	mouts, merr := kit.RunDriver(c.Driver, mops)
+	s.Streams["encode-command-model"] += len(mops)
+	if merr != nil {
+		s.Diverge("encode-command-model", "(driver failure)", "", merr.Error())
+	} else {
+		for q, i := range midx {
+			j := jobs[i]
+			data, _ := os.ReadFile(j.out)
+			f := strings.Fields(mouts[q])
+			op := mops[q]
+			if len(op) > 300 {
+				op = op[:300] + "…"
+			}
+			if len(f) != 2 || f[0] != strings.Fields(res[i] + " x")[0] {
+				s.Diverge("encode-command-model", op, res[i], mouts[q][:min(len(mouts[q]), 200)])
+				continue
+			}
+			mb := kit.UnHex(f[1])
+			mg, mt := decodeAll(codecs[j.to], mb)
+			rg, rt := decodeAll(codecs[j.to], data)
+			same := len(mb) == len(data) && len(mg) == len(rg) && mt == rt
+			for k := 0; same && k < len(mg); k++ {
+				same = gen.SameResult(&mg[k], &rg[k])
+			}
+			if !same {
+				s.Diverge("encode-command-model", op, fmt.Sprintf("%d bytes, %d records then %s", len(data), len(rg), rt), fmt.Sprintf("%d bytes, %d records then %s", len(mb), len(mg), mt))
+			}
+		}
+	}
 	for i, j := range jobs {
 		s.Count("encode-command:" + j.from + "->" + j.to)
 		s.Count("encode-command:shape=" + j.shape)
